@@ -9,6 +9,7 @@ from dlms_cosem.hdlc.state import (
     AWAITING_DISCONNECT,
     AWAITING_RESPONSE,
     NEED_DATA,
+    SEND_STATES,
     HdlcConnectionState,
 )
 
@@ -75,6 +76,13 @@ class HdlcConnection:
         :param frame: HDLC frame:
         :return: bytes
         """
+        if self.state.current_state not in SEND_STATES:
+            # The transition table has no direction. While waiting for the answer of
+            # the server it is not the clients turn to send.
+            raise LocalProtocolError(
+                f"can't send frame type {type(frame)} when "
+                f"state={self.state.current_state}"
+            )
         self.state.process_frame(frame)
 
         if isinstance(frame, frames.InformationFrame):
